@@ -169,10 +169,11 @@ PROPS = {
             ("rsass::input::Context::lock_loading", "input/context.rs", r"pub\(crate\) fn lock_loading"),
             ("rsass::input::Context::unlock_loading", "input/context.rs", r"pub fn unlock_loading"),
             ("rsass::output::transform::handle_item (Item::Use / Forward / Import arms)", "output/transform.rs", r"Item::Import\(names, args, pos\) =>"),
+            ("rsass::sass::MixinDecl::get (load-css) + handle_item @include arm", "sass/mixin.rs", r"Self::LoadCss =>"),
         ],
         "bounds": {"quick": "one lock_loading / unlock_loading call from an ARBITRARY set of files being loaded (the map's answer is symbolic); the three arms of handle_item "
                             "with every outcome of find_file, parse and the evaluation calls (each Result forks), one or two names per @import"},
-        "outside": "URL resolution and spelling (relative()), meta.load-css (mixin.rs), error paths (a failed compilation keeps its locks), termination of the recursive descent itself",
+        "outside": "URL resolution and spelling (relative()), error paths (a failed compilation keeps its locks), termination of the recursive descent itself (the claim is that every loading site holds the lock while the loaded body is evaluated, which is what makes a cycle meet it)",
         "stubs": ["BTreeMap::insert/remove are events with a symbolic previous entry", "SourceFile::source().name() and path() name the same key (both read data.source.name: checked in the MIR of path())"],
         "assumptions": ["rustc nightly MIR text = the code that is compiled", "mirsym's MIR subset semantics (/verif/mirsym/sym.py)", "z3 5.1 and cvc5 1.0.3"],
     },
